@@ -286,6 +286,8 @@ pub fn op_parse(s: &str) -> String {
             let mut sink = String::new();
             let _ = write!(sink, "{}", e1);
             let _ = write!(sink, "{:?}", e1);
+            // every formatting flag a caller can pass: alternate, width / fill / alignment, precision
+            let _ = write!(sink, "{:#}{:#?}{:>40}{:<3}{:^17}{:.3}{:.0}{:*^9.2}", e1, e1, e1, e1, e1, e1, e1, e1);
             {
                 let d: &dyn miette::Diagnostic = e1;
                 if let Some(it) = d.labels() {
@@ -304,7 +306,7 @@ pub fn op_parse(s: &str) -> String {
                 let mut cur: Option<&(dyn std::error::Error + 'static)> = std::error::Error::source(e1);
                 let mut depth = 0;
                 while let Some(c) = cur {
-                    let _ = write!(sink, "{}{:?}", c, c);
+                    let _ = write!(sink, "{}{:?}{:#}{:#?}{:.2}", c, c, c, c, c);
                     cur = c.source();
                     depth += 1;
                     if depth > 8 { break; }
@@ -318,6 +320,7 @@ pub fn op_parse(s: &str) -> String {
             if let Err(rep) = PointerBuf::parse(s.to_string()) {
                 let _ = write!(sink, "{}", rep);
                 let _ = write!(sink, "{:?}", rep);
+                let _ = write!(sink, "{:#}{:#?}{:>40}{:<3}{:^17}{:.3}{:.0}{:*^9.2}", rep, rep, rep, rep, rep, rep, rep, rep);
                 let d: &dyn miette::Diagnostic = &rep;
                 if let Some(it) = d.labels() {
                     for l in it {
@@ -347,6 +350,14 @@ pub fn op_parse(s: &str) -> String {
             with_alignments(s, |k, v| {
                 let got = guard(|| show(Pointer::parse(v)));
                 law_align.ck(got.as_deref() == Some(base.as_str()), &format!("parse_differs_at_offset_{k}"));
+                // … and the borrowed result is a view of THOSE bytes (an empty input cut out of a larger buffer has a real
+                // address, unlike `String::new()`, so a canned `""` shows)
+                if let Some(Ok((ptr, len))) = guard(|| Pointer::parse(v).map(|p| (p.as_str().as_ptr(), p.as_str().len()))) {
+                    law_align.ck(ptr == v.as_ptr() && len == v.len(), &format!("parse_result_is_not_a_view_of_its_input_at_offset_{k}"));
+                }
+                if let Some(Ok((ptr, len))) = guard(|| borrowed_deser(v).map(|p| (p.as_str().as_ptr(), p.as_str().len()))) {
+                    law_align.ck(ptr == v.as_ptr() && len == v.len(), &format!("borrowed_deserialize_is_not_a_view_of_its_input_at_offset_{k}"));
+                }
             });
         }
     }
@@ -438,6 +449,16 @@ pub fn op_tok_new(s: &str) -> String {
                 law_from.ck(*x == t, &format!("{n}_unequal"));
                 law_from.ck(x.encoded() == enc && x.decoded() == s, &format!("{n}_text"));
             }
+        }
+    }
+    {
+        let toks: Vec<Token> = vec![t.clone(), Token::new(format!("{s}~/x")), Token::new(""), Token::new("a".repeat(s.len() + 9)), t.clone().into_owned(),
+            Token::new(String::from("plain")), Token::from(7usize)];
+        clone_from_law(&mut law_from, "token", &toks);
+        for b in &toks {
+            let mut x = toks[1].clone();
+            x.clone_from(b);
+            law_from.ck(x.encoded() == b.encoded() && x.decoded() == b.decoded(), "token_clone_from_text");
         }
     }
     let mut law_align = Law::new();
@@ -643,6 +664,29 @@ pub fn op_index_str(s: &str) -> String {
     let mut law_truth = Law::new();
     if let Err(e) = &r {
         law_truth.res(pie_truthful(e, s));
+    }
+    {
+        // copies of a rejection are the same truthful rejection, also when written over an earlier one (`clone_from`)
+        let mut errs: Vec<ParseIndexError> = Vec::new();
+        let mut oks: Vec<Index> = Vec::new();
+        for v in [s.to_string(), format!("1{s}"), format!("{s}x"), "x".to_string(), format!("12{s}\u{e9}"), "00".to_string(), String::new()] {
+            match Index::from_str(&v) {
+                Ok(i) => oks.push(i),
+                Err(e) => errs.push(e),
+            }
+        }
+        clone_from_law(&mut law_truth, "parse_index_error", &errs);
+        clone_from_law(&mut law_truth, "index", &oks);
+        let ices: Vec<jsonptr::index::InvalidCharacterError> = errs.iter().filter_map(|e| match e {
+            ParseIndexError::InvalidCharacter(c) => Some(c.clone()),
+            _ => None,
+        }).collect();
+        clone_from_law(&mut law_truth, "invalid_character_error", &ices);
+        for c in &ices {
+            let mut x = ices[0].clone();
+            x.clone_from(c);
+            law_truth.ck(guard(|| x.char()) == guard(|| c.char()) && x.offset() == c.offset() && x.source() == c.source(), "invalid_character_error_clone_from_accessors");
+        }
     }
     o.law("law_grammar", &law_grammar);
     o.law("law_display", &law_display);
